@@ -239,3 +239,32 @@ for _n in (0, 1, 2):
                       f"len(calls('add_att')) == {_n}", "len(calls('load_tokens')) == 1"],
              bounded=f"{_n} disclosed attestations (keys, token blob and attestation blob symbolic)",
              note="one failing token or attestation anywhere in the disclosure makes the whole disclosure incorrect")
+
+
+# ---------------------------------------------------------------------------------------------------------------------
+# a permission is a SNAPSHOT of the position opened at the time it was given (history, independent of how the table represents it):
+# tokens added to the chain afterwards - for this attester's private use or for another peer - are not served to the earlier peer
+def grant_grow_serve(self, peer, attribute_hash, tnew, request, H):
+    self.request_attestation_advertisement(peer, attribute_hash, "name")
+    self.token_chain.append(tnew)
+    return H(self, peer, request)
+
+
+SER = lambda name: OBJ(f"{TK}::Token", previous_token_hash=BYTES_N(32), content_hash=BYTES_N(32), signature=BYTES,  # noqa: E731
+                       get_plaintext_signed=CALLABLE(name, returns=BYTES, raises=()))
+contract(f"{IC}::IdentityCommunity.request_attestation_advertisement", "permission-is-a-snapshot-of-the-opened-position",
+         vars={"o1": SER("ser_opened"), "o2": SER("ser_opened"), "tnew": SER("ser_later"),
+               "peer": OBJ("ipv8/peer.py::Peer", public_key=PK, mid=BYTES_N(20)), "ah": BYTES_N(32),
+               "self": OBJ(f"{IC}::IdentityCommunity", logger=LOGGER(), token_chain=EXPR("[o1, o2][:n_chain]"), permissions=EXPR("{}"),
+                           pseudonym_manager=EFFECT("pseudonym_manager", disclose_credentials={"returns": EXPR("(b'', b'', b'', b'')")})),
+               "request": OBJ("ipv8/attestation/identity/payload.py::RequestMissingPayload", known=INT),
+               "H": EXPR(f"undecorated(resolve_class('{IC}::IdentityCommunity'), 'on_request_missing')")},
+         instances=[{"n_chain": n} for n in (0, 1, 2)], requires=["request.known >= 0"],
+         call="grant_grow_serve(self, peer, ah, tnew, request, H)", raises=[],
+         stubs={"ipv8/lazy_community.py::EZPackOverlay.ez_send": {"event": "ez_send"},
+                f"{IC}::IdentityCommunity.self_advertise": {"returns": "'credential'", "note": "credential creation: own contracts (C19 storage, C16 chain)"},
+                f"{IC}::IdentityCommunity._fit_disclosure": {"returns": "(b'', b'', b'', b'')", "note": "size fitting of the disclosure"}},
+         ensures=["len(calls('ser_later')) == 0", "len(calls('ser_opened')) <= max(0, n_chain - request.known)", "len(calls('ez_send')) == 2"],
+         covers=["n_chain == 0 or len(calls('ser_opened')) >= 1"],
+         bounded="own chain of 0..2 tokens when the permission is given, one token added afterwards",
+         note="the peer is served at most the tokens that existed when the position was opened to it")
